@@ -63,6 +63,12 @@ static inline struct vs_sv vs_sv_substr(const struct vs_sv *s, size_t pos, size_
     r.p = pos ? s->p + pos : s->p;
     return r;
 }
+struct vs_sv g_dup;
+static inline const char *vs_str_index(const struct vs_sv *s, size_t i)
+{
+    __CPROVER_assert(i < s->n, "std::string::operator[] inside the string (index size() is the terminator, anything beyond is undefined)");
+    return s->p + i;
+}
 static inline bool vs_sv_eq(struct vs_sv a, struct vs_sv b) { return a.n == b.n && (a.n == 0 || a.p == b.p); }
 static inline void vs_pvec_push(struct vs_pvec *v, struct vs_sv name, struct vs_sv value)
 {
@@ -102,6 +108,7 @@ TYPES = {
     CCI + '::value_type': 'struct vs_cpair', CI + '::value_type': 'struct vs_cpair',
     CIB: 'struct vs_cit', CCI: 'struct vs_cit', CI: 'struct vs_cit', CP: 'struct vs_cpair', 'std::pair<const std::basic_string_view<char>, std::shared_ptr<Pistache::Rest::SegmentTreeNode>>': 'struct vs_cpair',
     'std::pair<const std::string_view, std::shared_ptr<Pistache::Rest::SegmentTreeNode>>': 'struct vs_cpair',
+    'basic_string<char, std::char_traits<char>, std::allocator<char>>': 'struct vs_sv', 'std::basic_string<char>': 'struct vs_sv',
     'std::string_view': 'struct vs_sv', 'std::basic_string_view<char>': 'struct vs_sv', 'std::string': 'struct vs_sv',
     'std::shared_ptr<Pistache::Rest::SegmentTreeNode>': 'struct Pistache_Rest_SegmentTreeNode *',
     'std::shared_ptr<Pistache::Rest::Route>': 'struct vs_route *', 'std::shared_ptr<Route>': 'struct vs_route *',
@@ -112,6 +119,11 @@ TYPES = {
 }
 STUBS = {
     'move': {'expr': '($0)'},
+    # std::regex_replace(path, multiple_slash, "/"): the collapsed text, a string of its own (g_dup); at least one and at most as many characters
+    'regex_replace': {'expr': '(g_dup)'}, 'var:Pistache::Rest::SegmentTreeNode::multiple_slash': '0',
+    'operator[]|std::string': {'expr': '(*vs_str_index(&($0), $1))'}, 'std::string::length': {'expr': '((($this))->n)'}, 'std::string::size': {'expr': '((($this))->n)'},
+    'std::string::substr/2': {'expr': 'vs_sv_substr($this, $0, $1)'}, 'std::string::substr/1': {'expr': 'vs_sv_substr($this, $0, VS_NPOS)'},
+    'ctor:std::string/1': {'expr': '((struct vs_sv){0, 0})'},
     'make_tuple|tuple<typename __decay_and_strip<const shared_ptr<Route> &>::__type, typename __decay_and_strip<vector<TypedParam>>::__type, typename __decay_and_strip<vector<TypedParam>>::__type> (const std::shared_ptr<Pistache::Rest::Route> &, std::vector<Pistache::Rest::TypedParam> &&, std::vector<Pistache::Rest::TypedParam> &&)': {'expr': '((struct vs_res){($0), ($1), ($2)})'},
     'make_tuple|tuple<typename __decay_and_strip<std::nullptr_t>::__type, typename __decay_and_strip<vector<TypedParam>>::__type, typename __decay_and_strip<vector<TypedParam>>::__type> (std::nullptr_t &&, std::vector<Pistache::Rest::TypedParam> &&, std::vector<Pistache::Rest::TypedParam> &&)': {'expr': '((struct vs_res){(struct vs_route *)0, ($1), ($2)})'},
     'ctor:std::vector<Pistache::Rest::TypedParam>/0': {'expr': '((struct vs_pvec){0})'},
@@ -245,6 +257,14 @@ EXCEPTIONS = {'std::runtime_error': 'VS_EXC_RUNTIME_ERROR', 'std::out_of_range':
 DEFAULT_RULE = False
 OPAQUE_UNKNOWN = True
 FUNCTIONS = [
+    {'q': NODE + '::sanitizeResource', 'contract': """
+        requires __CPROVER_r_ok(path, sizeof(*path)) && path->n >= 1 && path->n <= PATH_MAX_LEN && vs_exc == 0
+        requires g_dup.n >= 1 && g_dup.n <= path->n && __CPROVER_r_ok(g_dup.p, g_dup.n)
+        assigns vs_exc
+        ensures vs_exc == 0
+        # C10 (path normalisation): with runs of slashes collapsed (regex_replace, library), the leading character and ONE trailing slash are
+        # dropped, nothing else: the result is the text between them
+        ensures RET.p == g_dup.p + 1 && RET.n == ((g_dup.p[g_dup.n - 1] == '/' && g_dup.n >= 2) ? g_dup.n - 2 : g_dup.n - 1)"""},
     {'q': NODE + '::findRoute', 'sig': 'std::tuple<std::shared_ptr<Route>, std::vector<TypedParam>, std::vector<TypedParam>> (const std::string_view &, std::vector<TypedParam> &, std::vector<TypedParam> &) const',
      'c': 'Node_findRoute3', 'hoist_all': True,
      'prologue': 'struct vs_level L = vs_level_init(path, params, splats);',
@@ -273,6 +293,8 @@ FUNCTIONS = [
         decreases __end3.i - __begin3.i"""]},
 ]
 PROOFS = [
+    {'name': 'sanitizeResource', 'enforce': 'Pistache_Rest_SegmentTreeNode_sanitizeResource', 'props': ['C10'],
+     'harness': 'void h_sanitizeResource(void) { struct vs_sv path; size_t len; __CPROVER_assume(len >= 1 && len <= PATH_MAX_LEN); char *b = malloc(len); __CPROVER_assume(b != 0); g_dup.p = b; g_dup.n = len; Pistache_Rest_SegmentTreeNode_sanitizeResource(&path); }\n'},
     {'name': 'findRoute', 'enforce': 'Node_findRoute3', 'rec': True, 'loops': 'contracts', 'props': ['C10'],
      'harness': 'void h_findRoute(void) { struct Pistache_Rest_SegmentTreeNode n, c1, c2, c3, c4; vs_child_fixed = c1; vs_child_param = c2; vs_child_opt = c3; vs_child_splat = c4; _Bool hs; n.splat_ = hs ? &vs_child_splat : 0; vs_child_fixed.splat_ = 0; vs_child_param.splat_ = 0; vs_child_opt.splat_ = 0; vs_child_splat.splat_ = 0; struct vs_sv path; size_t len; __CPROVER_assume(len <= PATH_MAX_LEN); char *b = malloc(len); __CPROVER_assume(b != 0); path.p = b; path.n = len; struct vs_pvec ps, ss; Node_findRoute3(&n, &path, &ps, &ss); }\n'},
 ]
